@@ -398,17 +398,12 @@ func checkCombiningUnconditional(c *Ctx, p *Prog, rule string) {
 		return
 	}
 	n, bad := 0, ""
-	for _, call := range callsIn(dc, func(nm string, _ *ssa.CallCommon) bool { return strings.HasSuffix(nm, "tScreen).encodeRune") }) {
-		arg := derefCell(callCommon(call).Args[1])
-		u, ok := arg.(*ssa.UnOp)
-		if !ok {
-			continue
-		}
-		if _, isIA := u.X.(*ssa.IndexAddr); !isIA {
+	for _, f := range encodeRuneFeeds(p, dc) {
+		if f.src != "GetContent#1[i]" {
 			continue
 		}
 		n++
-		for _, g := range rawGuardsAt(call.Block()) {
+		for _, g := range f.guards {
 			if mentionsScreenState(g.Cond, 3) {
 				bad += "the encoding of combining runes depends on " + valName(g.Cond) + " (" + p.pos(g.Cond.Pos()) + "); "
 			}
